@@ -86,4 +86,25 @@ theorem progQ1_deadlocks : ∃ s evs, run progQ1 (cfgB 6) initB schedQ1 = some (
     (sched := schedQ1) (f := fun r => deadB progQ1 (cfgB 6) r.1) (by decide +kernel)
   exact ⟨s, evs, h, deadB_sound hf⟩
 
+/-- a thread standing at an instruction with a default branch can always move -/
+theorem dflt_never_blocks {P : List Code} {cfg : Cfg} {s t pc : Nat} {ins : Instr}
+    (h0 : panicCode s = 0) (hi : instrAt P cfg s t = some ins) (hd : ins.dflt = some pc) :
+    ∃ a, (step P cfg s t a).isSome = true := by
+  have h0' : Nat.beq (dig s 0) 0 = true := by
+    unfold panicCode at h0; rw [h0]; rfl
+  cases hall : ins.alts.all (fun alt => !enabled cfg s alt.op) with
+  | true =>
+    refine ⟨ins.alts.length, ?_⟩
+    simp [step, h0', hi, hd, hall]
+  | false =>
+    have hex : ∃ alt ∈ ins.alts, enabled cfg s alt.op = true := by
+      have := hall
+      rw [List.all_eq_false] at this
+      obtain ⟨alt, hmem, hne⟩ := this
+      exact ⟨alt, hmem, by simpa using hne⟩
+    obtain ⟨alt, hmem, hen⟩ := hex
+    obtain ⟨i, hi'⟩ := List.mem_iff_getElem?.mp hmem
+    refine ⟨i, ?_⟩
+    simp [step, h0', hi, hi', hen]
+
 end CV.C18.Sync
